@@ -45,6 +45,18 @@ theorem updateExpired_complete {f f' : FdtRecv σ} {now : Int}
     injection h with h; subst h
     exact absurd hc hst
 
+theorem updateExpired_bytes {f f' : FdtRecv σ} {now : Int} (h : f.updateExpired now = .ok f') :
+    f'.bytes = f.bytes := by
+  unfold FdtRecv.updateExpired at h
+  split at h
+  · injection h with h; subst h; rfl
+  · split at h
+    · split at h
+      · cases h
+      · injection h with h; subst h; rfl
+      · injection h with h; subst h; rfl
+    · injection h with h; subst h; rfl
+
 theorem updateExpired_fields {f f' : FdtRecv σ} {now : Int} (h : f.updateExpired now = .ok f') :
     f'.fdtId = f.fdtId ∧ f'.inst = f.inst ∧ f'.check = f.check ∧ f'.expires = f.expires ∧
     f'.offset = f.offset ∧ f'.late = f.late ∧ f'.obj = f.obj ∧ f'.utf8 = f.utf8 ∧ f'.hasMeta = f.hasMeta := by
